@@ -317,7 +317,7 @@ func implC12(line string) string {
 		ob, _ := o.Get("1")
 		lo, _ := o.Get("2")
 		return arrTok(r) + "|" + arrTok(ob) + "|" + arrTok(lo)
-	case "sset":
+	case "sset", "lsset":
 		vm.Set("v", h.HexF64(f[1]))
 		var b strings.Builder
 		b.WriteString("var d = new Date(v); var R = [];")
@@ -332,6 +332,8 @@ func implC12(line string) string {
 			call := "d.setUTC" + name + "(" + args + ")"
 			if name == "time" {
 				call = "d.setTime(" + args + ")"
+			} else if f[0] == "lsset" {
+				call = "d.set" + name + "(" + args + ")"
 			}
 			b.WriteString("L = []; try { var r = " + call + "; R.push([L, r]); } catch (e) { R.push([L, e === BOOM ? 'throw' : 'other:' + e]); }")
 		}
@@ -354,7 +356,7 @@ func implC12(line string) string {
 		return strings.Join(parts, ",") + "|" + arrTok(ob)
 	case "sutc":
 		args := scriptedArgs(vm, "a", f[1:])
-		v, e := run(scriptedPrelude + "var R; L = []; try { R = [L, Date.UTC(" + args + ")]; } catch (e) { R = [L, e === BOOM ? 'throw' : 'other:' + e]; } R")
+		v, e := run(scriptedPrelude + "var d = new Date(0); var R; L = []; try { R = [L, Date.UTC(" + args + ")]; } catch (e) { R = [L, e === BOOM ? 'throw' : 'other:' + e]; } R")
 		if e != "" {
 			return e
 		}
@@ -363,7 +365,7 @@ func implC12(line string) string {
 	return "bad-op"
 }
 
-const scriptedPrelude = `var L = []; var BOOM = {}; function O(i, x) { return {valueOf: function () { L.push(i); return x; }}; } function T(i) { return {valueOf: function () { L.push(i); throw BOOM; }}; } `
+const scriptedPrelude = `var L = []; var BOOM = {}; function O(i, x) { return {valueOf: function () { L.push(i); return x; }}; } function T(i) { return {valueOf: function () { L.push(i); throw BOOM; }}; } function M(i, x, m) { return {valueOf: function () { L.push(i); d.setTime(m); return x; }}; } `
 
 // scriptedArgs binds the numbers and returns the argument list source: `n<hex>` number, `o<hex>` logging object, `t` thrower.
 func scriptedArgs(vm *otto.Otto, prefix string, toks []string) string {
@@ -377,6 +379,11 @@ func scriptedArgs(vm *otto.Otto, prefix string, toks []string) string {
 		case 'o':
 			vm.Set(name, h.HexF64(t[1:]))
 			parts[i] = "O(" + strconv.Itoa(i) + "," + name + ")"
+		case 'm':
+			xm := strings.SplitN(t[1:], "_", 2)
+			vm.Set(name, h.HexF64(xm[0]))
+			vm.Set(name+"m", h.HexF64(xm[1]))
+			parts[i] = "M(" + strconv.Itoa(i) + "," + name + "," + name + "m)"
 		default:
 			parts[i] = "T(" + strconv.Itoa(i) + ")"
 		}
@@ -640,7 +647,17 @@ func genStream(c *h.Ctx, zone string, scale int) {
 	}
 	// scripted arguments: which ToNumber conversions happen, in which order, and what a throwing one leaves behind
 	scripted := func(x float64) string {
-		switch r.Intn(10) {
+		switch r.Intn(12) {
+		case 10, 11:
+			// valueOf re-enters setTime on the same Date (sometimes with NaN or beyond the range)
+			m := float64(int64(r.U64()%6311433600000) - 2208988800000)
+			switch r.Intn(8) {
+			case 0:
+				m = math.NaN()
+			case 1:
+				m = 8.64e15 + 1
+			}
+			return "m" + hx(x) + "_" + hx(m)
 		case 0:
 			return "t"
 		case 1, 2, 3, 4:
@@ -700,6 +717,38 @@ func genStream(c *h.Ctx, zone string, scale int) {
 			b.WriteString(" " + setterNames[k] + ":" + strings.Join(as, ","))
 		}
 		c.Add(b.String(), fmt.Sprintf("sset:steps=%d", steps))
+	}
+	// the local setters and setYear with scripted arguments (fixed-offset zones: no transition-hour region in the way)
+	if zone != "NY" && zone != "LON" {
+		lsnames := []string{"Milliseconds", "Seconds", "Minutes", "Hours", "Date", "Month", "FullYear", "Year"}
+		lslimits := []int{1, 2, 3, 4, 1, 2, 3, 1}
+		lsfieldIdx := [][]int{{6}, {5, 6}, {4, 5, 6}, {3, 4, 5, 6}, {2}, {1, 2}, {0, 1, 2}, {0}}
+		for i := 0; i < n(10000, 500000); i++ {
+			var b strings.Builder
+			t0 := float64(int64(r.U64()%6311433600000) - 2208988800000)
+			if r.Chance(30) {
+				t0 = math.NaN()
+			}
+			b.WriteString("lsset " + hx(t0))
+			steps := 1 + r.Intn(3)
+			for s := 0; s < steps; s++ {
+				k := r.Intn(8)
+				na := 1 + r.Intn(lslimits[k])
+				if r.Chance(8) {
+					na = lslimits[k] + 1
+				}
+				var as []string
+				for j := 0; j < na; j++ {
+					if j < len(lsfieldIdx[k]) {
+						as = append(as, scripted(sfield(lsfieldIdx[k][j])))
+					} else {
+						as = append(as, scripted(float64(r.Intn(100))))
+					}
+				}
+				b.WriteString(" " + lsnames[k] + ":" + strings.Join(as, ","))
+			}
+			c.Add(b.String(), fmt.Sprintf("lsset:steps=%d", steps))
+		}
 	}
 	// setter histories
 	limits := []int{1, 2, 3, 4, 1, 2, 3, 1}
